@@ -222,3 +222,8 @@ package parser
 //@   inline
 //@ func NewCppGenerator
 //@   inline
+
+// ---------------------------------------------------------------- formatter entry point (C09 error path, C16)
+
+//@ func FormatPacketDsl
+//@   ensures [C09:error-returns-input] result1 != nil ==> result0 == dsl
